@@ -5,7 +5,7 @@ import z3
 
 from pyvc import core
 from pyvc.arrays import SArr
-from pyvc.core import And, Not, Or, SBool, SInt, SObj, ctx, implies, ite, smin
+from pyvc.core import And, Not, Or, RaiseSig, SBool, SInt, SObj, ctx, implies, ite, smin
 from pyvc.interp import harness
 from pyvc.sbytes import SBytes
 from pyvc.verify import Contract, Lemma, register
@@ -187,8 +187,10 @@ class ReadChunk(Contract):
     props = ("C03",)
     use_at_call_sites = False
 
+    configs = (1, 2)          # number of chunk sizes listed for the scale: a chunk may be on the grid of any of them
+
     def setup(self, c, cfg):
-        self.info = mk_info(c, n_chunk_sizes=1)
+        self.info = mk_info(c, n_chunk_sizes=cfg)
         self.io = mk_io(c, self.info)
         self.cc = mk_coords(c)
         # one chunk previously stored (by the abstract encoder) at these coordinates
@@ -620,6 +622,16 @@ class CsegWrapper(Lemma):
             if ok:
                 i = tuple(c.int(n, inp=True) for n in ("ci", "zi", "yi", "xi"))
                 c.prove("encode:chunk-values-passed-unchanged", implies(a[0].in_bounds(i), a[0].elem(*i) == chunk.elem(*i)))
+        # a chunk whose type cannot be cast SAFELY to the encoder's type is refused, not silently converted
+        for bad_dt in (("uint64", "int64", "float32") if dt == "uint32" else ("int64", "float64")):
+            badchunk = SArr.fresh(c, "chunk_" + bad_dt, bad_dt, (2,) + dims, kind="real" if bad_dt.startswith("float") else "int")
+            n_before = len([x for x in c.calls_log if x[0].endswith("encode_chunk")])
+            try:
+                c.interp.call(e.encode, (badchunk,))
+                refused = False
+            except RaiseSig as ex:
+                refused = isinstance(ex.exc, TypeError)
+            c.prove(f"encode:{bad_dt}-chunk-refused-with-TypeError(no unsafe cast)", refused and len([x for x in c.calls_log if x[0].endswith("encode_chunk")]) == n_before)
         cs = [c.int(n, inp=True) for n in ("csx", "csy", "csz")]
         for v in cs:
             c.assume(v >= 1)
